@@ -8,7 +8,8 @@
      add_node / _add_repetition_node / _add_iteration_node / new_loop     refine tr_node / tr_nodes (same commands appended,
                                                 same final state, same exception kind)
      to_increment_commands                      = translate
-     LinSpaceVM.__init__                        = gvm_init                                                              *)
+     LinSpaceVM.__init__                        = gvm_init
+     hold_voltage, one voltage                  = build_volt on `VAff base (pos_coefs ranges offsets)` (up to Qeq: 0. + x) / VPlain *)
 From Coq Require Import ZArith QArith Qround List Bool Lia.
 Require Import QV.C17.Model QV.C17.GenLib QV.C17.Gen_linspace QV.C17.GenEq QV.C17.Gen_linspace_obj QV.C17.ProofsVM QV.C17.GenObjEq
                QV.C17.Gen_linspace_tr QV.C17.SimDefs QV.C17.ProofsTr1 QV.C17.ProofsTr2.
@@ -298,4 +299,76 @@ Qed.
 
 (* LinSpaceVM.__init__ *)
 Theorem gen_vm_init_eq : forall channels, gen_vm_init channels = gvm_init channels.
+Proof. reflexivity. Qed.
+
+(* ---------------------------------------------------------------------------------------------------------------- *)
+(* LinSpaceBuilder.hold_voltage: the loop over the open iterations that turns one SimpleExpression into (base, factors) *)
+
+(* the positional coefficients the model's `VAff base coefs` stands for, given the open iterations by NAME (outermost first) and
+   the offsets of the SimpleExpression by name: a level whose name is bound again further in is shadowed (coefficient 0),
+   a name without offset has coefficient 0 *)
+Fixpoint pos_coefs (rs : list (nat * (Z * Z))) (offsets : list (nat * Q)) : list Q :=
+  match rs with
+  | [] => []
+  | (name, _) :: rs' =>
+      (if existsb (fun nr : nat * (Z * Z) => Nat.eqb (fst nr) name) rs' then 0%Q
+       else match alookup Nat.eqb name offsets with Some o => o | None => 0%Q end) :: pos_coefs rs' offsets
+  end.
+
+Lemma not_shadowed_b : forall (l : list (nat * (Z * Z))) name,
+  forallb (fun '(inner_name, _) => negb (Nat.eqb inner_name name)) l = negb (existsb (fun nr => Nat.eqb (fst nr) name) l).
+Proof. induction l as [|[n r] l IH]; intros name; cbn; [reflexivity|]. rewrite IH. now rewrite negb_orb. Qed.
+
+Lemma nth_coef_middle : forall pre c post, nth_coef (pre ++ c :: post) (length pre) = c.
+Proof. intros. unfold nth_coef. now rewrite nth_middle. Qed.
+
+Lemma Forall2_Qeq_snoc : forall a b x y, Forall2 Qeq a b -> (x == y)%Q -> Forall2 Qeq (a ++ [x]) (b ++ [y]).
+Proof. intros. apply Forall2_app; auto. Qed.
+
+Lemma hold_voltage_loop_eq : forall offsets rs pre base base' incs acc,
+  (base == base')%Q -> Forall2 Qeq incs (rev acc) ->
+  (fst (gen_hold_voltage_loop2 rs offsets base incs) ==
+   fst (aff_walk (map snd rs) (pre ++ pos_coefs rs offsets) (length pre) base' acc))%Q /\
+  Forall2 Qeq (snd (gen_hold_voltage_loop2 rs offsets base incs))
+              (snd (aff_walk (map snd rs) (pre ++ pos_coefs rs offsets) (length pre) base' acc)).
+Proof.
+  intros offsets. induction rs as [|[name [start step]] rs IH]; intros pre base base' incs acc Hb Hi.
+  - cbn. split; assumption.
+  - cbn [gen_hold_voltage_loop2 map snd aff_walk pos_coefs fst]. rewrite nth_coef_middle. rewrite not_shadowed_b.
+    set (c0 := if existsb (fun nr : nat * (Z * Z) => Nat.eqb (fst nr) name) rs then 0%Q
+               else match alookup Nat.eqb name offsets with Some o => o | None => 0%Q end).
+    assert (Hpre : forall X, pre ++ c0 :: X = (pre ++ [c0]) ++ X) by (intros; now rewrite <- app_assoc).
+    assert (Hlen : S (length pre) = length (pre ++ [c0])) by (rewrite app_length; cbn; lia).
+    rewrite Hpre, Hlen.
+    destruct (alookup Nat.eqb name offsets) as [o|] eqn:Eo.
+    + destruct (Qeq_bool o 0) eqn:Ez; cbn [negb andb].
+      * assert (Ec : Qeq_bool c0 0 = true).
+        { unfold c0. destruct (existsb _ rs); [reflexivity|exact Ez]. }
+        rewrite Ec. apply IH; [rewrite Hb; reflexivity|cbn [rev]; apply Forall2_Qeq_snoc; [exact Hi|reflexivity]].
+      * destruct (existsb (fun nr : nat * (Z * Z) => Nat.eqb (fst nr) name) rs) eqn:Es; cbn [negb].
+        -- assert (Ec : Qeq_bool c0 0 = true) by (unfold c0; reflexivity).
+           rewrite Ec. apply IH; [rewrite Hb; reflexivity|cbn [rev]; apply Forall2_Qeq_snoc; [exact Hi|reflexivity]].
+        -- assert (Ec : c0 = o) by (unfold c0; reflexivity). rewrite Ec, Ez.
+           apply IH; [rewrite Hb; ring|cbn [rev]; apply Forall2_Qeq_snoc; [exact Hi|ring]].
+    + assert (Ec : Qeq_bool c0 0 = true) by (unfold c0; destruct (existsb _ rs); reflexivity).
+      rewrite Ec. apply IH; [rewrite Hb; reflexivity|cbn [rev]; apply Forall2_Qeq_snoc; [exact Hi|reflexivity]].
+Qed.
+
+Definition volt_res_eq (x y : Q * option (list Q)) : Prop :=
+  (fst x == fst y)%Q /\ match snd x, snd y with Some a, Some b => Forall2 Qeq a b | None, None => True | _, _ => False end.
+
+(* hold_voltage on a SimpleExpression = the model's build_volt on `VAff base (pos_coefs ..)`; on a plain number = VPlain *)
+Theorem gen_hold_voltage_expr_eq : forall rs offsets base,
+  match build_volt (map snd rs) (VAff base (pos_coefs rs offsets)) with
+  | Ok r => volt_res_eq (gen_hold_voltage_expr rs offsets base) r
+  | Err _ => False
+  end.
+Proof.
+  intros rs offsets base. unfold build_volt, gen_hold_voltage_expr.
+  pose proof (hold_voltage_loop_eq offsets rs [] base base [] [] (Qeq_refl _) (Forall2_nil _)) as H. cbn [app length] in H.
+  destruct (gen_hold_voltage_loop2 rs offsets base []) as [b1 i1]. destruct (aff_walk (map snd rs) (pos_coefs rs offsets) 0 base []) as [b2 i2].
+  cbn in *. exact H.
+Qed.
+
+Theorem gen_hold_voltage_plain_eq : forall rs q, build_volt rs (VPlain q) = Ok (gen_hold_voltage_plain q).
 Proof. reflexivity. Qed.
